@@ -102,6 +102,7 @@ func c13Slots() []c13Program {
 	add("let-value-after-bindings", false, true, func(e string) string {
 		return "let p = 1; let q = 2; let v = (q - p) * " + e + "; T | extend y = v | take 3"
 	})
+	add("let-value-before-its-bindings", false, true, func(e string) string { return "let v = 1 + " + e + "; let p = 1; let q = 2; T | where a > v" })
 	add("let-value-reassigned", false, true, func(e string) string { return "let v = " + e + "; let v = 2; T | take v" })
 	return out
 }
@@ -276,7 +277,7 @@ func c13Main(r *run.Runner) {
 		}
 		// row counts
 		for _, form := range []string{"T | take %s", "T | limit %s", "T | top %s by a", "T | where a | take %s | count", "T | join (R | take %s) on k", "T | join (R | top %s by y) on k"} {
-			for _, n := range []string{"0", "1", "007", "0x10", "100000", "(3)", "((3))", "2147483648", "4294967296", "9223372036854775807", "9223372036854775808", "18446744073709551615", "0x7FFFFFFFFFFFFFFF", "0xFFFFFFFFFFFFFFFF", "(0x8000000000000000)", "00000000000000000000000000000012"} {
+			for _, n := range []string{"0", "1", "007", "0x10", "100000", "(3)", "((3))", "2147483648", "4294967296", "9223372036854775807", "9223372036854775808", "18446744073709551615", "0x7FFFFFFFFFFFFFFF", "0xFFFFFFFFFFFFFFFF", "0x1e", "0xE0", "0XBEEF", "0xe", "(0x1E5)", "0xfe", "(0x8000000000000000)", "00000000000000000000000000000012"} {
 				mustCompile(w, fmt.Sprintf(form, n), "row-count-integer")
 			}
 			for _, n := range []string{"1.5", "1e3", ".5", "1.", "0.0", "1E2", "'x'", "\"3\"", "(1.5)", "((2.5))", "('x')"} {
